@@ -72,7 +72,45 @@ def c03_a(ctx: Ctx):
     if not yields:
         return [ctx.inc(R, fi, fi.node, "_job_dirs does not yield")]
     if not matches:
-        # an equivalent length-and-charset test is not recognised -> inconclusive, never a violation
+        # a length-and-alphabet test: decide it by the alphabet it accepts (ids are 32 lower-case hex digits)
+        import string as _string
+        STD = {"string.hexdigits": _string.hexdigits, "string.digits": _string.digits, "string.ascii_lowercase": _string.ascii_lowercase,
+               "string.ascii_letters": _string.ascii_letters, "string.ascii_uppercase": _string.ascii_uppercase}
+
+        def alphabet(e, depth=0):
+            e = common.inline_at(ctx, fi, e, e) if depth == 0 else e
+            if isinstance(e, ast.Name) and e.id in fi.module.consts and depth < 3:
+                return alphabet(fi.module.consts[e.id], depth + 1)
+            if isinstance(e, ast.Call) and isinstance(e.func, ast.Name) and e.func.id in ("set", "frozenset") and len(e.args) == 1:
+                return alphabet(e.args[0], depth + 1)
+            if isinstance(e, ast.BinOp) and isinstance(e.op, ast.Add):
+                a, b = alphabet(e.left, depth + 1), alphabet(e.right, depth + 1)
+                return None if a is None or b is None else a | b
+            d = dotted(e)
+            if d in STD:
+                return set(STD[d])
+            v = ctx.fold(e, fi)
+            if isinstance(v, str):
+                return set(v)
+            if isinstance(v, (set, frozenset, tuple, list)) and all(isinstance(x, str) and len(x) == 1 for x in v):
+                return set(v)
+            return None
+        alpha = None
+        site = None
+        for n in body_nodes(fi):
+            for pat in ("S.issuperset(D)", "set(D) <= S", "set(D).issubset(S)"):
+                b = common.pmatch(pat, n) if isinstance(n, ast.expr) else None
+                if b is not None:
+                    alpha, site = alphabet(b["S"]), n
+        lens = [n for n in body_nodes(fi) if isinstance(n, ast.Compare) and common.pmatch("len(D) == N", n) is not None]
+        if site is not None and alpha is not None:
+            want = set("0123456789abcdef")
+            ln = ctx.fold(common.pmatch("len(D) == N", lens[0])["N"], fi) if lens else None
+            if alpha - want:
+                return [ctx.viol(R, fi, site, f"directory names are accepted by an alphabet test that admits {''.join(sorted(alpha - want))!r} besides the lower-case hex digits: a 32-character "
+                                 "name with upper-case digits (no state point hashes to such a name) is listed, counted and reported by check() as a job")]
+            if alpha == want and ln == idlen:
+                return [ctx.ok(R, fi, site, f"directory names are filtered by length == {idlen} and the lower-case hex alphabet")]
         return [ctx.inc(R, fi, fi.node, "no regular-expression filter found in _job_dirs (unknown filter shape)")]
     for n, api, pat in matches:
         if not isinstance(pat, str):
@@ -307,6 +345,7 @@ def c03_b(ctx: Ctx):
     else:
         st = ctx.stmt_of(mv, rp[0].node)
         adopt = set()
+        adopted_names = set()
         env = ctx.env(mv)
         for n in cfg.stmt_nodes():
             for sub in _own(n.ast):
@@ -317,6 +356,7 @@ def c03_b(ctx: Ctx):
                             src = env.get(a.value.id)
                             if isinstance(src, ast.Call) and "signac.project:Project.open_job" in common.targets_of(ctx, mv, src):
                                 adopt.add(n.id)
+                                adopted_names.add(a.value.id)
         c = f"{mv.qual}|move|adopt"
         if adopt:
             bad = None
@@ -329,7 +369,7 @@ def c03_b(ctx: Ctx):
                 # objects (a state point collection whose handle list contains only the discarded handle) that the moved handle would inherit
                 touched = []
                 for n2 in body_nodes(mv):
-                    if isinstance(n2, ast.Attribute) and isinstance(n2.value, ast.Name) and n2.value.id == "dst" and n2.attr not in ("path", "id", "_id", "__dict__", "_path"):
+                    if isinstance(n2, ast.Attribute) and isinstance(n2.value, ast.Name) and n2.value.id in adopted_names and n2.attr not in ("path", "id", "_id", "__dict__", "_path"):
                         touched.append(n2)
                 k4 = f"{mv.qual}|move|dst-pristine"
                 if touched:
